@@ -23,6 +23,9 @@ pub struct World {
     pub sealed: HashMap<String, SealedState<Cas>>,
     pub names: Names,
     pub counter: u64,
+    /// verdicts of the independent covenant evaluation of the last `batch_oracles` call:
+    /// (tx index, input index, Some(approved) or None when coin/covenant could not be resolved)
+    pub approvals: Vec<(usize, usize, Option<bool>)>,
 }
 
 pub fn silent<T>(f: impl FnOnce() -> T) -> Result<T, ()> {
@@ -37,7 +40,7 @@ impl World {
         for (a, b) in [(Denom::Mel, Denom::Sym), (Denom::Mel, Denom::Erg), (Denom::Erg, Denom::Sym)] {
             names.reg_poolkey(PoolKey::new(a, b));
         }
-        World { db: Database::new(Cas::default()), unsealed: HashMap::new(), sealed: HashMap::new(), names, counter: 0 }
+        World { db: Database::new(Cas::default()), unsealed: HashMap::new(), sealed: HashMap::new(), names, counter: 0, approvals: vec![] }
     }
 
     pub fn fresh(&mut self, prefix: &str) -> String {
@@ -127,21 +130,31 @@ impl World {
         }
         // covenant-level oracle answers: evaluate every resolvable input's covenant independently
         let _ = hooks::take_log();
+        self.approvals.clear();
         if let Some(last) = self.last_header(s) {
-            for tx in txs {
+            for (ti, tx) in txs.iter().enumerate() {
                 let scripts = tx.covenants_as_map();
                 for (idx, inp) in tx.inputs.iter().enumerate() {
                     let coin = created.get(inp).cloned().or_else(|| coins.get_coin(*inp));
-                    let Some(coin) = coin else { continue };
-                    let Some(script) = scripts.get(&coin.coin_data.covhash) else { continue };
-                    let Ok(cov) = Covenant::from_bytes(script) else { continue };
-                    // cheap guard against exponential weights / deep recursion in the oracle pass
-                    let _ = silent(|| {
+                    let Some(coin) = coin else {
+                        self.approvals.push((ti, idx, None));
+                        continue;
+                    };
+                    let Some(script) = scripts.get(&coin.coin_data.covhash) else {
+                        self.approvals.push((ti, idx, None));
+                        continue;
+                    };
+                    let Ok(cov) = Covenant::from_bytes(script) else {
+                        self.approvals.push((ti, idx, None));
+                        continue;
+                    };
+                    let v = silent(|| {
                         cov.execute(
                             tx,
                             Some(CovenantEnv { parent_coinid: *inp, parent_cdh: coin.clone(), spender_index: idx as u8, last_header: last }),
                         )
                     });
+                    self.approvals.push((ti, idx, v.ok().map(|o| o.map(|x| x.into_bool()).unwrap_or(false))));
                 }
             }
         }
